@@ -21,9 +21,13 @@ CONSTANTS NDev,          \* devices on the segment
           PerFrame,      \* status checks per frame (frame size)
           MaxRounds,     \* polling rounds before the transition timeout
           Scripts,       \* set of behaviour scripts a device may follow
-          From, Target   \* state before the call, requested state
+          From, Target,  \* state before the call, requested state
+          PerDeviceCheck \* TRUE (the code): every answer of a status frame is compared with the requested state;
+                         \* FALSE: the answers of a frame are OR-ed and the bitmap is compared (a device that does
+                         \* not answer - state 0 - then leaves no trace)
 
-\* a script: [after |-> polls until accepted, refuse |-> BOOLEAN, stall |-> BOOLEAN, fallAfter |-> polls or 0]
+\* a script: [after |-> polls until accepted, refuse |-> BOOLEAN, stall |-> BOOLEAN, fallAfter |-> polls or 0,
+\*            silent |-> BOOLEAN: takes the request and does not answer any status read afterwards]
 
 VARIABLES
     script,     \* script[i]
@@ -79,14 +83,20 @@ AfterPoll(d) ==
                     /\ p > s.after + s.fallAfter + (IF s.after > 0 THEN 1 ELSE 0)
     IN IF fallen THEN From ELSE IF accepted THEN req[d] ELSE state[d]
 
+\* bitwise OR of a set of AL states (1, 2, 3, 4, 8; 0 = no answer)
+OrAll(S) == LET Bit(b) == IF \E v \in S : (v \div b) % 2 = 1 THEN b ELSE 0 IN Bit(1) + Bit(2) + Bit(4) + Bit(8)
+
 \* one frame of the current round: up to PerFrame status reads, in member order
 PollFrame ==
     /\ pc = "poll"
     /\ LET last == IF idx + PerFrame - 1 < NM THEN idx + PerFrame - 1 ELSE NM
            ds == {MemberSeq[j] : j \in idx..last}
-           ans == [d \in ds |-> AfterPoll(d)]
-           frameOk == \A d \in ds : ans[d] = Target
-       IN /\ state' = [d \in Devs |-> IF d \in ds THEN ans[d] ELSE state[d]]
+           now == [d \in ds |-> AfterPoll(d)]
+           \* what the MainDevice gets to see: a silent device leaves the datagram untouched
+           ans == [d \in ds |-> IF script[d].silent /\ req[d] # 0 THEN 0 ELSE now[d]]
+           frameOk == IF PerDeviceCheck THEN \A d \in ds : ans[d] = Target
+                      ELSE OrAll({ans[d] : d \in ds}) = Target
+       IN /\ state' = [d \in Devs |-> IF d \in ds THEN now[d] ELSE state[d]]
           /\ polled' = [d \in Devs |-> IF d \in ds THEN polled[d] + 1 ELSE polled[d]]
           /\ answers' = [d \in Devs |-> IF d \in ds THEN ans[d] ELSE answers[d]]
           /\ IF ~frameOk
@@ -114,7 +124,7 @@ OkImpliesAllReportedAtCheck ==
 
 \* a device that refuses, stalls or never gets there makes the call fail within the timeout
 BadDeviceMeansError ==
-    pc = "done" /\ (\E d \in Members : script[d].refuse \/ script[d].stall) => result # "ok"
+    pc = "done" /\ (\E d \in Members : script[d].refuse \/ script[d].stall \/ script[d].silent) => result # "ok"
 
 ErrWithinTimeout == result = "err:Timeout" => round <= MaxRounds
 
